@@ -285,8 +285,11 @@ LEVEL_TEXT = ("Kernel-checked: on M-json normalised_json (for EVERY abstract fee
               "as a sub-machine independent of everything else, for every prefix the format's namespace is bound to); atom_entry_title_verbatim (stage 2); "
               "description_after_content_is_summary / content_sets_hasContent / second_description_becomes_content (stage 3: summary vs content); guid_not_permalink_verbatim / "
               "guid_permalink_is_link / alternate_link_is_entry_link (stage 4: the entry's id and link -- a non-permalink guid is stored verbatim, a permalink guid is the link of an entry "
-              "that has none, the alternate HTML link's resolved href is the entry's link and the dict is appended to links). Tie: both models follow the implementation on "
+              "that has none, the alternate HTML link's resolved href is the entry's link and the dict is appended to links); category_text_is_a_term / enclosure_is_a_link (stage 5: tags and "
+              "enclosures); author_string_from_name_and_email / author_string_from_name (stage 7: the author machinery -- _start_author, name / email / uri children, contributors, "
+              "_save_author, _sync_author_detail with the e-mail regex as a recorded oracle and author_detail modelled as THE SAME OBJECT as the last authors entry where the code makes it so). Tie: both models follow the implementation on "
               "generated inputs; the date-element table is regenerated from the handlers' source on every run.")
 LEVEL_NOTE = ("Trusted: Lean kernel + standard axioms; json.load, _parse_date, sanitize_html as parameters of M-json; the XML per-field normalisation is proved for version, dates, titles, summary / content, id and link (handlers recognised from / "
-              "fingerprinted against their source); author, categories and enclosures go through handlers that are not modelled and are "
-              "covered by the differential search over all eight formats, not by a theorem. Open finding: JSON Feed entry.content is a dict, not a list.")
+              "fingerprinted against their source); every field the property names (title, link, id, summary / content, author name and e-mail, dates, categories, enclosures) goes through handlers that ARE modelled now; "
+              "what the theorems do not cover is the publisher / webMaster variants of the author machinery, image / textInput / source contexts and the extension modules -- "
+              "covered by the differential search over all eight formats. Open finding: JSON Feed entry.content is a dict, not a list.")
